@@ -31,13 +31,10 @@ TRUSTED = [
     "default refused a forest whose own accountant had budget — kept as regression scenario FOREST_WITNESS)",
 ]
 UNPROVED = [
-    "multi_cell_charge is proved over the reals (sum of size spends of eps/size is eps; the accountant total is monotone "
-    "in its spends, any slack); for IEEE doubles the ★ version multi_cell_charge_gen reduces it to one hypothesis (a "
-    "fitting history still fits without its last spend), which the code's exact up-front check is designed to meet and "
-    "which is validated on exactly fitting budgets, not proved for doubles",
-    "multi-quantile over an axis: only the decisive step is proved (multi_quantile_inner_check, over the reals: the "
-    "per-quantile check(eps/m) is implied by the up-front check(eps)); the composition through runAll is not; in doubles "
-    "that step FAILS by one rounding at exactly fitting budgets (finding C09:quantile|percentile:nested-check-refuses-fitting-sequence)",
+    "multi_cell_charge / multi_quantile_charge are proved over the reals (the recorded spends sum to eps; the accountant "
+    "total is monotone in its spends, any slack); for IEEE doubles the ★ versions (…_gen) reduce them to ONE hypothesis "
+    "— a fitting history still fits without its last spend — which holds when float addition of non-negative numbers, "
+    "sqrt and log are monotone; it is validated on exactly fitting budgets, not proved for doubles",
     "the estimators' bodies are not modelled statement by statement here (C08 does the plans): model_charge_once is about "
     "the generic fit shape check-first / sub-queries on throw-away accountants / spend-last, tied by observing totals of all "
     "live accountants and the interposed mechanism invocations around the real fit",
@@ -265,6 +262,10 @@ def run_scenario(sc):
         except BudgetError:
             fits = False
         before = snapshot(accs)
+        if sc["kind"] in ("cells", "multiq") and math.isfinite(before[0][2]):
+            # a multi-cell query is charged as its cell spends: "fits" = that very sequence fits (what `_check_cells` tests;
+            # it can differ from the single-spend check by one rounding, in either direction)
+            fits = whole_sequence_fits(sc, before[0])
         mode = sc["mode"]
         forced = T.Forced(sc["seed"])
         model = None
@@ -342,12 +343,12 @@ def run_scenario(sc):
 
 
 def whole_sequence_fits(sc, snap):
-    """would the complete sequence of per-cell spends of a multi-quantile query fit the target's ceiling?
-    (the cell epsilon exactly as the code charges it: (eps / len(quant)) / n_cells)"""
+    """would the complete sequence of per-cell spends of a multi-cell query fit the target's ceiling?
+    (the cell epsilon exactly as the code charges it: eps / n_cells, resp. (eps / len(quant)) / n_cells)"""
     spent, slack, ceil_e, ceil_d = snap
-    m = sc["quants"]
-    n = sc["cells"]
-    cell = sc["eps"] / m / n
+    m = sc.get("quants", 1)
+    n = sc["cells"] if sc.get("layout") not in ("scalar", "axis-scalar") else 1
+    cell = sc["eps"] / m / n if sc["kind"] == "multiq" else sc["eps"] / n
     acc = BA(float("inf"), ceil_d if slack else 1.0, slack) if slack else BA(float("inf"), 1.0)
     t = acc.total(spent_budget=[(float(e), float(d)) for e, d in spent] + [(cell, 0)] * (m * n))
     return bool(t[0] <= ceil_e and t[1] <= ceil_d)
@@ -403,8 +404,6 @@ def verdict(sc, res):
     if appended:
         return (f"C09:{entry}:partial-charge", f"{desc}: BudgetError, but {len(appended)} spend(s) totalling {charged!r} were recorded")
     if res["fits"]:
-        if sc["kind"] in ("cells", "multiq") and sc["state"].endswith("equal"):
-            return None      # refused up front at an exactly fitting budget because the rounded cell spends sum above it
         return (f"C09:{entry}:refused-although-fits", f"{desc}: check(eps, 0) on the target accepts, but the call raised BudgetError "
                 f"(no mechanism ran, nothing charged; state set before the refusal: {res['state_changed']}): {res['exc']}")
     if res["state_changed"]:
@@ -495,8 +494,9 @@ def witness_forest(ctx):
 
 
 def witness_nested(entry):
-    """multi-quantile over an axis at an exactly fitting budget: quantile(X(4x7), [0.5, 0.1], epsilon=0.3, axis=0) on
-    BudgetAccountant(0.3, 0) — the second quantile's own check(0.15, 0) sees 7 x 0.3/2/7 + 0.15 > 0.3 by rounding"""
+    """regression witness (repaired in /repo 7bc0345): multi-quantile over an axis at an exactly fitting budget,
+    quantile(X(4x7), [0.5, 0.1], epsilon=0.3, axis=0) on BudgetAccountant(0.3, 0) — the second quantile's own
+    check(0.15, 0) used to see 7 x 0.3/2/7 + 0.15 > 0.3 by rounding and refuse part-way"""
     def run(ctx):
         sc = {"entry": entry, "kind": "multiq", "eps": 0.3, "state": "equal", "mode": "explicit", "decoy": "unlimited",
               "prior": [], "seed": 0, "quants": 2, "nan_data": False, "layout": "axis0", "shape": [4, 7], "axis": 0,
@@ -549,8 +549,6 @@ def check(ctx):
         if res["verdict"]:
             T.report(ctx, res["verdict"][0], res["verdict"][1],
                      {"scenario": sc, "result": {k: res[k] for k in ("kind", "calls", "fits", "exc")}})
-        if res["kind"] == "budgetError" and res["fits"] and not res["verdict"]:
-            ctx.count("upfront_refusal_at_exact_fit")
         if not res["kind"].startswith("other"):
             lines.append(lean_line(sc, res))
             keep.append((sc, res))
